@@ -255,6 +255,10 @@ def h_live(ctx, tail, cuts, ncuts=0):
       raw = list(of.ofp_flow_removed().pack()); msgs.append(hdr(11, len(raw), xid) + raw[8:]); expect.append(('FlowRemoved', xid))
     elif k == 'echo':
       body = ctx.bytes('body%d' % i, 2); msgs.append(hdr(2, 10, xid) + list(body)); echoes.append(hdr(3, 10, xid) + list(body))
+    elif k == 'error':
+      # an error reply quoting (the first bytes of) the offending request, as every real one does
+      # (type, code and the quoted bytes concrete: the default handler prints them - names and a hex dump -, which is not the subject here)
+      msgs.append(hdr(1, 12 + 5, xid) + [0, 1, 0, 8] + [1, 14, 0, 0x48, 0x7f]); expect.append(('ErrorIn', xid))
     else: raise KeyError(k)
   stream = env.tobytes(ctx, [x for m in msgs for x in m])
   for step, ch in enumerate(chunks_of(ctx, stream, cuts, ncuts)):
@@ -299,7 +303,7 @@ def obligations(tier):
                       controller_types=CTL_KINDS, switch_types=SW_KINDS, recv_boundary="echo request of 2048-8+{0,1,2} body bytes followed by hello",
                       large="hello, echo request of total length 0x7fff / 0x8000 / 0xffff (symbolic xid and edge bytes), echo request; both sides")
   live = []
-  for tail in (['packet_in', 'barrier'], ['port_status', 'echo', 'packet_in'], ['echo', 'flow_removed']) + ((['packet_in', 'packet_in', 'echo', 'barrier'],) if thorough else ()):
+  for tail in (['packet_in', 'barrier'], ['port_status', 'echo', 'packet_in'], ['echo', 'flow_removed'], ['error', 'packet_in']) + ((['packet_in', 'packet_in', 'echo', 'barrier'],) if thorough else ()):
     live.append(dict(tail=tail, cuts='sym', ncuts=1)); live.append(dict(tail=tail, cuts=[]))
     if thorough or tail == ['packet_in', 'barrier']: live.append(dict(tail=tail, cuts='sym', ncuts=2))
     if thorough: live.append(dict(tail=tail, cuts='dribble'))
